@@ -442,6 +442,55 @@ def _flag_exemption(c, prog):
     c.floor("R4.flag-exemption", 2, "extract_tx, Input::is_pegin (Input::issuance_ids is covered by C11.R3)")
 
 
+def _nonce_class(c, prog):
+    """from_txout stores the txout nonce as ecdh_pubkey when TxOut::is_partially_blinded() and as blinding_key otherwise; extract_tx
+    rebuilds the nonce from ecdh_pubkey only, so the round trip needs the predicate to be true as soon as any part is blinded
+    (asset commitment, value commitment or a non-empty witness). Exact truth table of the predicate."""
+    from ..analysis import bool_fn_table
+    f = prog.fn("transaction::TxOut::is_partially_blinded")
+    atoms, table = bool_fn_table(f.body, max_atoms=8)
+    roles = []
+    for a in atoms:
+        m = re.match(r"^confidential::(Asset|Value)::is_confidential\(arg1\.(asset|value)\)$", a)
+        m2 = re.match(r"^discr\(arg1\.(asset|value)\) == (\d)$", a)
+        if m:
+            roles.append((m.group(2), True))
+        elif m2:
+            roles.append((m2.group(1), "d" + m2.group(2)))
+        elif a == "transaction::TxOutWitness::is_empty(arg1.witness)":
+            roles.append(("witness-empty", True))
+        else:
+            roles.append((a, None))
+    bad = None
+    if table is None or any(r[1] is None for r in roles):
+        bad = "conditions not recognised: %s" % atoms
+    else:
+        for bits, res in table.items():
+            v = {"asset": False, "value": False, "witness-empty": True}
+            seen = {}
+            incons = False
+            for (role, kind), bit in zip(roles, bits):
+                if kind is True:
+                    if seen.setdefault(role, bit) != bit:
+                        incons = True
+                    v[role] = bit
+                else:   # discriminant test: variant 2 is Confidential
+                    if kind == "d2":
+                        if seen.setdefault(role, bit) != bit:
+                            incons = True
+                        v[role] = bit
+                    elif bit and seen.get(role) is True:
+                        incons = True
+            if incons:
+                continue
+            exp = v["asset"] or v["value"] or not v["witness-empty"]
+            if res != exp:
+                bad = "asset confidential=%s, value confidential=%s, witness empty=%s gives %s" % (v["asset"], v["value"], v["witness-empty"], res)
+                break
+    c.inst("R3.nonce-class", "TxOut::is_partially_blinded is true exactly when the asset or the value is a commitment or the witness is non-empty",
+           bad is None, bad or "conditions %s" % atoms, f.where(), f.path)
+
+
 def run(c, prog, ctx):
     c.explanation = (
         "Static decision of the structural clauses of C08: (R1) exhaustive abstract interpretation of "
@@ -456,4 +505,5 @@ def run(c, prog, ctx):
     _locktime(c, prog)
     _unique_id(c, prog)
     _mapping(c, prog)
+    _nonce_class(c, prog)
     _flag_exemption(c, prog)
